@@ -27,6 +27,7 @@ static const row ROWS[] = {
 	{ "X4",          IN_TEXT,    8,   4,  2,  0, 1,  0, 0,    1, 0, 0, 0 },
 	{ "X4",          IN_TEXT,    10,  4,  2,  0, 5,  3, 0,    1, 0, 0, 0 },
 	{ "X4",          IN_TEXT,    4,   4,  2,  0, 0,  2, 0,    2, 0, 0, 0 },	// one Block delivered in two slices, bound 2 also under ThreadSanitizer (unlocked reads of worker state)
+	{ "X4",          IN_TEXT,    8,   4,  2,  0, 0,  2, 0,    2, 0, 0, 0 },	// input in 2-byte slices at bound 2: progress is probed while a worker has published a partial count and then hands over its Block
 	{ "X4",          IN_TEXT,    8,   4,  2,  1, 0,  0, 0,    1, 1, 0, 0 },
 	{ "X4",          IN_TEXT,    10,  4,  2,  1, 5,  0, 0,    1, 2, 0, 1 },
 	{ "R2X4",        IN_TEXT,    8,   4,  2,  0, 0,  0, 0,    2, 0, 0, 0 },
